@@ -424,8 +424,7 @@ class VCondition:
 
 class VQueue:
     def __init__(self, maxsize=0):
-        if maxsize:
-            raise HarnessGap('bounded queues are not modelled')
+        self.maxsize = int(maxsize)      # <= 0: unbounded; otherwise put() blocks while full
         self.items = collections.deque()
         self.unfinished = 0
         # documented-by-use internals of queue.Queue: the deque of items and its mutex
@@ -440,7 +439,12 @@ class VQueue:
         raise HarnessGap(f'Queue.{attr} is not modelled by the look-alike')
 
     def put(self, item, block=True, timeout=None):
-        _ctrl().sched_point('queue.put')
+        if self.maxsize > 0:
+            if not block or timeout is not None:
+                raise HarnessGap('non-blocking / timed Queue.put is not modelled')
+            _ctrl().sched_point('queue.put', lambda: len(self.items) < self.maxsize)
+        else:
+            _ctrl().sched_point('queue.put')
         self.items.append(item)
         self.unfinished += 1
 
